@@ -40,6 +40,11 @@ def queries(tier, seed):
             d.update(NOISES[o % 3][1])
             out.append(Q('C05.h_roundtrip.%s.cxx[k=2]' % name, 'h_roundtrip', d, validate=(name == 'TLweKey'), finding_key='C05.double-format',
                          mdefs=dict(double_format()[1], IO_CAP=1024), unwind=1030))
+    # rows with their own (symbolic) advisory variance: the stored value is the maximum over ALL rows and comes back on every row
+    for name in ('LweKeySwitchKey', 'LweBootstrappingKey') + (('CloudKeySet',) if tier == 'thorough' else ()):
+        d = {'OBJ': OBJS.index(name), 'CXX': 1, 'VARROWS': 1}
+        d.update(NOISES[0][1])
+        out.append(Q('C05.h_roundtrip.%s.cxx[row variances symbolic]' % name, 'h_roundtrip', d, finding_key='C05.double-format'))
     out.append(Q('C05.canary.h_roundtrip.LweSample', 'h_roundtrip', {'OBJ': 3, 'CXX': 1, 'CANARY': 1}, expect='fail', witness=False))
     out.append(Q('C05.canary.h_concat', 'h_concat', {'CXX': 1, 'CANARY': 1}, expect='fail', witness=False))
     out.append(Q('C05.canary.h_double_format', 'h_double_format', {'CXX': 1, 'CANARY': 1}, expect='fail', witness=False))
